@@ -268,7 +268,9 @@ func c06Gen(tier string, rng *rand.Rand) []mCase {
 		for _, s := range allSpans(b.spans) {
 			if s.LenAt >= 0 {
 				remaining := len(b.bytes) - (s.LenAt + s.LenSize)
-				for _, nl := range []int{remaining + 1, remaining + 65536} {
+				// beyond what remains: by one, by a lot, and with the top bit of a 4-byte length set (a signed
+				// 32-bit comparison would see those as negative)
+				for _, nl := range []int{remaining + 1, remaining + 65536, 0x7fffffff, 0x80000000, 0x80000000 + remaining, 0xffffffff} {
 					if s.LenSize == 1 && nl > 255 {
 						continue
 					}
@@ -302,7 +304,8 @@ func c06Gen(tier string, rng *rand.Rand) []mCase {
 			}
 			adm := admissible(ft)
 			for _, ty := range []byte{0, 1, 2, 3, 4, 5, 6, 7, 8, 9, 10, 12, 13} {
-				if adm[ty] || rng.Intn(3) != 0 {
+				// every inadmissible wire type for the members of the test IDL (which has every member type); sampled elsewhere
+				if adm[ty] || (!strings.HasPrefix(b.e.name, "verifidl.") && rng.Intn(3) != 0) {
 					continue
 				}
 				nb := append(append(append([]byte(nil), b.bytes[:s.Start]...), randFieldOf(rng, ty, s.Tag, 2)...), b.bytes[s.End:]...)
